@@ -80,12 +80,21 @@ LslVerdict(e) ==
   ELSE IF dist > e.E * e.pct THEN "farther-than-the-cap"
   ELSE IF (e.typ = "long" /\ e.R > e.E * 100) \/ (e.typ = "short" /\ e.R < e.E * 100) THEN "wrong-side"
   ELSE "ok"
+\* low-price lattice: entry E and stop S in units of 1e-10, cap pct in tenths of a percent, result R = round(result * 1e12)
+\* (units of 1e-12; the logging rounding is the one unit of slack).  cap in 1e-12 units = E * pct / 10 (exact rational).
+LslpVerdict(e) ==
+  LET dist == Abs(e.E * 100 - e.R) IN
+  IF e.exc # "none" THEN "raises:" \o e.exc
+  ELSE IF dist > Abs(e.E - e.S) * 100 + 1 THEN "farther-than-the-requested-stop"
+  ELSE IF dist * 10 > e.E * e.pct + 10 THEN "farther-than-the-cap"
+  ELSE IF (e.typ = "long" /\ e.R > e.E * 100) \/ (e.typ = "short" /\ e.R < e.E * 100) THEN "wrong-side"
+  ELSE "ok"
 EriskVerdict(e) == IF e.exc # "none" THEN "raises:" \o e.exc ELSE IF e.R # Abs(e.E - e.S) THEN "not-the-distance" ELSE "ok"
 
 Verdict(e) == CASE e.k = "size" -> SizeVerdict(e) [] e.k = "risk" -> RiskVerdict(e)
                 [] e.k \in {"sum", "sub"} -> DecVerdict(e) [] e.k \in {"rdown", "rqty"} -> RoundVerdict(e)
                 [] e.k \in {"rdownb", "rqtyb"} -> RoundBVerdict(e)
-                [] e.k = "lsl" -> LslVerdict(e) [] e.k = "erisk" -> EriskVerdict(e)
+                [] e.k = "lsl" -> LslVerdict(e) [] e.k = "lslp" -> LslpVerdict(e) [] e.k = "erisk" -> EriskVerdict(e)
                 [] OTHER -> "unknown-record-kind"
 Step == /\ l <= Len(Ev(tid))
         /\ LET v == Verdict(Ev(tid)[l])  w == SpotAccept(Ev(tid)[l])
